@@ -20,6 +20,8 @@ def x? (s : String) : X :=
 def xMat (s : String) : List (List X) := (splitTok s ";").map fun r => (splitTok r ",").map x?
 /-- the rounding of the request: `id` (exact) or binary64 round-to-nearest-even -/
 def rndOf (s : String) : Rat → Rat := if s == "b64" then rnd64 else id
+/-- the float structure of the kernel requests: exact, or binary64 with overflow to `inf` -/
+def opsOf (s : String) : FOps X := if s == "b64" then xOpsO rnd64 else xOps id
 
 def answer (toks : List String) : String :=
   match toks with
@@ -49,16 +51,16 @@ def answer (toks : List String) : String :=
         (accE (vMat e)) (v? eps) dim.toNat! (accM (bools m)))
   -- round 4: the same generated kernels on doubles (inf, nan, rounded differences)
   | ["xvertline_seq", rnd, n, dim, e, eps] =>
-      showNats (StructC08._vertline_dist_sequential (xOps (rndOf rnd)) n.toNat! (zeros n.toNat!)
+      showNats (StructC08._vertline_dist_sequential (opsOf rnd) n.toNat! (zeros n.toNat!)
         (accX (xMat e)) (x? eps) dim.toNat!)
   | ["xdiagline_seq", rnd, n, dim, e, eps] =>
-      showNats (StructC08._diagline_dist_sequential (xOps (rndOf rnd)) n.toNat! (zeros n.toNat!)
+      showNats (StructC08._diagline_dist_sequential (opsOf rnd) n.toNat! (zeros n.toNat!)
         (accX (xMat e)) (x? eps) dim.toNat!)
   | ["xvertline_seq_mv", rnd, n, dim, e, eps, m] =>
-      showNats (StructC08._vertline_dist_sequential_missingvalues (xOps (rndOf rnd)) n.toNat!
+      showNats (StructC08._vertline_dist_sequential_missingvalues (opsOf rnd) n.toNat!
         (zeros n.toNat!) (accX (xMat e)) (x? eps) dim.toNat! (accM (bools m)))
   | ["xdiagline_seq_mv", rnd, n, dim, e, eps, m] =>
-      showNats (StructC08._diagline_dist_sequential_missingvalues (xOps (rndOf rnd)) n.toNat!
+      showNats (StructC08._diagline_dist_sequential_missingvalues (opsOf rnd) n.toNat!
         (zeros n.toNat!) (accX (xMat e)) (x? eps) dim.toNat! (accM (bools m)))
   -- the stored matrix of `set_fixed_threshold` in double arithmetic + the NaN mask
   | ["xmatrix", rnd, dim, mv, e, eps] =>
@@ -77,7 +79,7 @@ def answer (toks : List String) : String :=
       s!"{one false} {one true} {w false} {w true}"
   -- round 5: the distance kernel of the matrix mode, THE LOOPS AS WRITTEN (`supremum_rp_loops`)
   | ["xdistloops", rnd, n, dim, e] =>
-      let D := StructC08.supremum_rp_loops (xOps (rndOf rnd)) n.toNat! dim.toNat! (accX (xMat e))
+      let D := StructC08.supremum_rp_loops (opsOf rnd) n.toNat! dim.toNat! (accX (xMat e))
       let sx (x : X) : String := match x with
         | .fin q => showRat q | .pinf => "inf" | .ninf => "-inf" | .nan => "nan"
       let rows := (List.range n.toNat!).map fun (a : Nat) =>
